@@ -1040,6 +1040,15 @@ class World:
                     model.zombies[g]["entry"] = "ws"
                     model.zombies[g]["gc_at_removal"] = self.gc_events()
                     model.__dict__.setdefault("removed_entry", {})[g] = "ws"
+        # survivors of the subtree: property groups (they are children too) may have gone before the refusal
+        for u in subtree:
+            if u in model.recs and model.recs[u]["kind"] == "object" and not model.recs[u].get("concat"):
+                obj = self.ent(h, u)
+                live_pgs = snapshot.record(obj, with_arrays=False)["pgs"]
+                del obj
+                for pg_uid in set(model.recs[u].get("pgs", {})) - set(live_pgs):
+                    model.removed.add(pg_uid)
+                model.recs[u]["pgs"] = live_pgs
         return "partial:" + outcome.split(":")[0]
 
     def gen_rm_parent(self, rng, h):
